@@ -525,3 +525,15 @@ package codecs
 //@   ensures owned [C08]: len(result0) > 0 ==> fresh(result0)
 //@   ensures state_owned [C08]: (p.spsNalu == nil || fresh(p.spsNalu) || sameSlice(p.spsNalu, old(p.spsNalu))) && (p.ppsNalu == nil || fresh(p.ppsNalu) || sameSlice(p.ppsNalu, old(p.ppsNalu)))
 //@ end
+
+// ===== C08 / C13: AV1Payloader =====
+//
+// Size of a LEB128 length field and the amount that fits together with it.
+//@ spec (*AV1Payloader).leb128Size
+//@   ensures size [C08,C13]: size == ite(leb128 >= 268435456, 5, ite(leb128 >= 2097152, 4, ite(leb128 >= 16384, 3, ite(leb128 >= 128, 2, 1)))) && (isAtEge ==> leb128 >= 128)
+//@ end
+//@ spec (*AV1Payloader).computeWriteSize
+//@   requires 1 <= wantToWrite && wantToWrite <= canWrite && canWrite >= 2 && canWrite < 1000000
+//@   ensures fits [C08,C13]: 1 <= result0 && result0 <= wantToWrite && result0 + lebLenInt(result0) <= canWrite
+//@ end
+//@ pure lebLenInt(x) = ite(x < 128, 1, ite(x < 16384, 2, ite(x < 2097152, 3, ite(x < 268435456, 4, 5))))
